@@ -13,6 +13,14 @@
 char *verif_log_buf = NULL;
 size_t verif_log_len = 0;
 
+#ifdef USE_CUDA
+// the cuSPARSE variant's Fex/Jac/InitJac live in .cu files with kernel launches, which cannot be compiled
+// here; Solve never calls them through the mock integrator, so link-time stubs are enough
+int Fex(realtype, N_Vector, N_Vector, void *) { return 0; }
+int Jac(realtype, N_Vector, N_Vector, SUNMatrix, void *, N_Vector, N_Vector, N_Vector) { return 0; }
+int InitJac(SUNMatrix) { return 0; }
+#endif
+
 // ---------------------------------------------------------------- choice machinery
 static std::vector<int> g_prefix, g_taken, g_arity;
 static size_t g_pos;
@@ -118,7 +126,7 @@ static bool run_once(double dt, const double y0) {
     data.nH = 1.0; data.Tgas = 10.0;
     double y[NEQUATIONS];
     for (int i = 0; i < NEQUATIONS; i++) y[i] = y0;
-    naunet.Init();
+    naunet.Init(1, 1e-20, 1e-5, 500);
     int ret = naunet.Solve(y, dt, &data);
     naunet.Finalize();   // closes the memstream: verif_log_buf/len are final now
     std::string log = verif_log_buf ? std::string(verif_log_buf, verif_log_len) : std::string();
